@@ -109,6 +109,8 @@ pub fn render(case: &Value, rng: &mut Rng, plain: bool) -> Program {
             // keep `fn name`, `const name` etc. readable; any whitespace is legal between tokens
             text.push_str(sep);
         }
+        // a string literal is any member of its class: also one that contains comment openers or non-ASCII text
+        let s = if !plain && s == "\"s\"" { ["\"s\"", "\"//\"", "\"a // b\"", "\"é💣\"", "\"/// x\""][rng.below(5)] } else { s };
         let start = text.len();
         text.push_str(s);
         toks.push(Tok {
